@@ -1,6 +1,6 @@
 import SpecVerif.Model.Py
 /-!
-# C10 — Impl model of `__eq__`, `__deepcopy__`, re-construction and `__repr__` of spec classes
+# C10 — Impl model of `__eq__`, `__deepcopy__`, `__init__`, re-construction and `__repr__` of spec classes
 
 Mirrors `spec_classes/methods/core.py`:
 
@@ -12,7 +12,16 @@ Mirrors `spec_classes/methods/core.py`:
 * `DeepCopyMethod.deepcopy` — per `__dict__` entry: a method bound to `self` is re-bound to the copy,
   `do_not_copy` attributes are shared, everything else is deep-copied (a method bound to another object is
   re-bound to that object's copy, functions/classes/modules are atomic);
-* re-construction `type(x)(**{a: x.a for init-enabled a with a value})`;
+* `InitMethod.init` (`construct`) — for the class that owns the instance's metadata: the constructor of every
+  parent spec class, base-most first, called with the keyword arguments of the attributes that parent owns
+  (`parentKwargs`: the caller's value, copied unless `do_not_copy`, whatever the value is; else the instance's
+  default when there is one), each assigning the attributes it owns (`initOwn`), then the attributes owned by
+  the class itself; plain subclasses use the constructor of their nearest spec ancestor with their own defaults
+  (`lookup_default_value(type(self))`). A keyword argument that is not passed and one passed as `MISSING`
+  (what the key gets when it is not given) are both `missing`. Not modelled: the init-overflow attribute,
+  `__post_init__`, overridden parent constructors;
+* re-construction `type(x)(**{a: x.a for init-enabled a with a value})` THROUGH that constructor
+  (`reconstruct`), with the attribute-wise specification `rcFields`/`specFields` it is proved to refine;
 * `ReprMethod.repr` — the attributes with `repr=True` in metadata order, each child rendered as `<self>`,
   `<bound method f of self>`, `<bound method f of …>`, a compact nested instance `Cls(key=…, ...)`, `MISSING`
   or a plain value.
@@ -55,13 +64,17 @@ structure AttrInfo where
   repr : Bool
   init : Bool
   doNotCopy : Bool
-  dflt : Val            -- what a fresh instance shows for the attribute when nothing is passed (`missing` = nothing)
+  dflt : Val            -- what a fresh instance shows for the attribute when nothing is passed (`missing` = nothing);
+                        -- for an init-enabled attribute this is `Attr.lookup_default_value(type(self))`
+  owner : Nat := 0      -- `Attr.owner`: id of the spec class that declared (or re-annotated) the attribute
 
 structure ClassInfo where
   name : String
   parent : Option Nat           -- direct base class (single inheritance in this grammar)
   attrs : List AttrInfo         -- metadata order
   key : Option Nat              -- index of the key attribute
+  spec : Bool := true           -- decorated with `@spec_class` (own metadata and constructor); a plain subclass
+                                -- inherits the metadata and the constructor of its nearest spec ancestor
 
 abbrev Table := List ClassInfo
 
@@ -83,6 +96,10 @@ def isProperSub (T : Table) (c d : Nat) : Bool := c != d && isSub T c d
 
 def Val.isBound : Val → Bool
   | .bound _ _ => true
+  | _ => false
+
+def Val.isMissing : Val → Bool
+  | .missing => true
   | _ => false
 
 mutual
@@ -180,30 +197,130 @@ def deepcopy (T : Table) : Val → Val
   | .inst c fs => .inst c (dcFields (T.attrs c) fs)
   | v => dcVal v
 
+/-! ### the constructor (`InitMethod.init`) -/
+
+def hdV : Vals → Val
+  | .nil => .missing
+  | .cons v _ => v
+
+def tlV : Vals → Vals
+  | .nil => .nil
+  | .cons _ r => r
+
+/-- `value if do_not_copy else protect_via_deepcopy(value)`. -/
+def protect (a : AttrInfo) (v : Val) : Val := if a.doNotCopy then v else dcVal v
+
+def Table.isSpec (T : Table) (c : Nat) : Bool := (T[c]?.map (·.spec)).getD false
+
+/-- `cls.mro()[1:]` (single inheritance): the proper ancestors, nearest first (fuel = table size). -/
+def ancestorsFuel (T : Table) : Nat → Nat → List Nat
+  | 0, _ => []
+  | fuel + 1, c =>
+    match T[c]? with
+    | some ci => (match ci.parent with
+      | some p => p :: ancestorsFuel T fuel p
+      | none => [])
+    | none => []
+
+def ancestors (T : Table) (c : Nat) : List Nat := ancestorsFuel T T.length c
+
+/-- The class whose metadata/constructor an instance of `c` uses (`self.__spec_class__.owner`): `c` itself when
+it is a spec class, else its nearest spec ancestor. -/
+def metaOf (T : Table) (c : Nat) : Nat :=
+  if T.isSpec c then c else (((ancestors T c).filter (T.isSpec ·)).head?).getD c
+
+/-- `reversed(spec_cls.mro()[1:])` restricted to classes with their own `__spec_class__`: the spec ancestors of the
+metadata owner, base-most first. -/
+def specParents (T : Table) (m : Nat) : List Nat := ((ancestors T m).filter (T.isSpec ·)).reverse
+
+/-- First loop of `InitMethod.init` for one parent spec class `p`: the keyword arguments forwarded to
+`p.__init__` (positional here; `missing` = not passed). Keyword arguments `kw`: `missing` = not passed. -/
+def parentKwargs (p : Nat) : List AttrInfo → Vals → Vals
+  | [], _ => .nil
+  | a :: as, kw =>
+    .cons
+      (if a.owner != p then .missing                  -- `instance_attr_spec.owner is not parent: continue`
+       else if !a.init then .missing                  -- not accepted by the parent constructor
+       else if (hdV kw).isMissing then a.dflt         -- not in kwargs: the instance default, when there is one
+       else protect a (hdV kw))                       -- `attr in kwargs`: popped, copied unless do_not_copy
+      (parentKwargs p as (tlV kw))
+
+/-- Second loop of `InitMethod.init` running as `spec_cls = p`: assigns the init-enabled attributes owned by
+`p`. `top` = `instance_metadata.owner is spec_cls` (only then are passed values copied here). `cur` = the
+values assigned so far (`missing` = nothing assigned). -/
+def initOwn (p : Nat) (top : Bool) : List AttrInfo → Vals → Vals → Vals
+  | [], _, _ => .nil
+  | a :: as, kw, cur =>
+    .cons
+      (if !a.init || a.owner != p then hdV cur
+       else if (hdV kw).isMissing then                -- `lookup_default_value`; nothing is assigned when MISSING
+         (if a.dflt.isMissing then hdV cur else a.dflt)
+       else if top then protect a (hdV kw) else hdV kw)
+      (initOwn p top as (tlV kw) (tlV cur))
+
+/-- The loop over the parent spec classes: `parent.__init__(self, **parent_kwargs)` for each, base-most first
+(inside, `instance_metadata.owner is spec_cls` is false, so only the second loop runs). -/
+def initParents : List Nat → List AttrInfo → Vals → Vals → Vals
+  | [], _, _, cur => cur
+  | p :: ps, as, kw, cur => initParents ps as kw (initOwn p false as (parentKwargs p as kw) cur)
+
+def allMissing : List AttrInfo → Vals
+  | [] => .nil
+  | _ :: as => .cons .missing (allMissing as)
+
+/-- What `getattr(x, a, MISSING)` shows after construction: the assigned value, else what the class shows. -/
+def viewFields : List AttrInfo → Vals → Vals
+  | [], _ => .nil
+  | a :: as, cur =>
+    .cons (if (hdV cur).isMissing then a.dflt else hdV cur) (viewFields as (tlV cur))
+
+/-- `InitMethod.init` for an instance of class `c` (metadata owner `m = metaOf T c`; the attribute specs and
+defaults are those seen by `c`): parents' constructors base-most first, then the own attributes. -/
+def initFields (T : Table) (c : Nat) (kw : Vals) : Vals :=
+  let m := metaOf T c
+  let as := T.attrs c
+  initOwn m true as kw (initParents (specParents T m) as kw (allMissing as))
+
+/-- `type(x)(**kw)` as `getattr` then shows it, attribute by attribute. -/
+def construct (T : Table) (c : Nat) (kw : Vals) : Vals := viewFields (T.attrs c) (initFields T c kw)
+
+/-- Every init-enabled attribute is owned by the metadata owner or by one of its spec ancestors (so that
+exactly the constructors that are run assign it). -/
+def ownersOk (T : Table) (c : Nat) : Bool :=
+  (T.attrs c).all (fun a => !a.init || a.owner == metaOf T c || (specParents T (metaOf T c)).contains a.owner)
+
+/-- SPEC of the constructor, attribute by attribute: a passed value is shown (copied unless `do_not_copy`)
+whatever it is and whichever class of the chain owns the attribute; otherwise the default is shown. -/
+def shown (a : AttrInfo) (kv : Val) : Val :=
+  if a.init then (if kv.isMissing then a.dflt else protect a kv) else a.dflt
+
+def specFields : List AttrInfo → Vals → Vals
+  | [], _ => .nil
+  | a :: as, kw => .cons (shown a (hdV kw)) (specFields as (tlV kw))
+
 /-! ### re-construction from own attribute values -/
 
 /-- Identity given to the original instance when one of its bound methods is handed to the new instance. -/
 def origId : Nat := 999
 
-/-- `type(x)(**{a: getattr(x, a) for init-enabled a that has a value})`, as `getattr` then shows it. -/
-def rcFields : List AttrInfo → Vals → Vals
+/-- `{a: getattr(x, a) for init-enabled a that has a value}` (positional; `missing` = not passed). A method
+bound to `x` itself is, for the new instance, a method bound to another object. -/
+def ownValues : List AttrInfo → Vals → Vals
   | [], _ => .nil
-  | a :: as, .nil => .cons a.dflt (rcFields as .nil)
+  | _ :: as, .nil => .cons .missing (ownValues as .nil)
   | a :: as, .cons v r =>
-    (if a.init then
-      (match v with
-       | .missing => Vals.cons a.dflt (rcFields as r)
-       | .bound none f => Vals.cons (.bound (some origId) f) (rcFields as r)   -- still bound to the original
-       | _ => Vals.cons (dcVal v) (rcFields as r))                              -- the constructor copies
-     else Vals.cons a.dflt (rcFields as r))
+    .cons (if a.init then (match v with
+        | .bound none f => .bound (some origId) f
+        | v => v)
+      else .missing) (ownValues as r)
 
+/-- SPEC of re-construction (what the theorems about `==` are proved on; `reconstruct_refines`). -/
+def rcFields (as : List AttrInfo) (fs : Vals) : Vals := specFields as (ownValues as fs)
+
+/-- `type(x)(**own values)` through the constructor model. -/
 def reconstruct (T : Table) : Val → Val
-  | .inst c fs => .inst c (rcFields (T.attrs c) fs)
+  | .inst c fs => .inst c (construct T c (ownValues (T.attrs c) fs))
   | v => v
-
-def Val.isMissing : Val → Bool
-  | .missing => true
-  | _ => false
 
 /-- Re-construction can restore the instance: every compared attribute is either passed to the constructor
 (init-enabled and holding a value) or already shows what a fresh instance shows. -/
